@@ -35,13 +35,19 @@ def grid_values():
 
 
 class ExprCase:
-    def __init__(self, ast, equs=None, nlabel=0, spell=None, tag="", via_macro=False):
-        self.ast, self.equs, self.nlabel, self.tag = ast, equs or {}, nlabel, tag
+    def __init__(self, ast, equs=None, nlabel=0, spell=None, tag="", via_macro=False, via="dq"):
+        self.ast, self.equs, self.nlabel, self.tag, self.via = ast, equs or {}, nlabel, tag, via
         self.spell = spell or Spell()
         lines = [equ(n, e) for n, e in self.equs.items()]
         # labels l1..ln on consecutive nops: label li has value i-1
         lines += [instr("nop", lab="l%d" % (i + 1)) for i in range(nlabel)]
-        if via_macro:
+        if via == "byte":
+            # the expression is the size of a reservation: the RAM usage reported is its value
+            lines += [seg("data"), byte(ast), seg("code"), instr("nop")]
+        elif via == "org":
+            # the expression is an origin: the image ends one word behind it
+            lines += [org(ast), instr("nop")]
+        elif via_macro:
             # the expression reaches the data directive as a macro argument: it means there what it means here
             lines += [line("macro", n="put"), data(8, ARG(0)), line("endm"), call("put", E(ast))]
         else:
@@ -161,6 +167,33 @@ def error_propagation():
     return out
 
 
+def other_positions(rnd, tier):
+    """The operand of .byte and of .org is a constant expression like any other: it has the table's value there, and division by
+    zero, overflow and unknown functions fail the build there as well.  (Names that are not known when the line is read are a
+    recorded finding of C02 and are not used here.)"""
+    out = []
+    bad = [binop("/", num(1), num(0)), binop("%", num(7), num(0)), binop("*", num(MAXI), num(2)), binop("+", num(MAXI), num(1)),
+           binop("-", un("-", num(MAXI)), num(2)), un("-", binop("-", un("-", num(MAXI)), num(1)))]
+    for via in ("byte", "org"):
+        for b in bad:
+            out.append(ExprCase(b, tag="position." + via, via=via))
+            for o in ("+", "*", "&", "||", "<<"):
+                out.append(ExprCase(binop(o, num(3), b), tag="position." + via, via=via))
+                out.append(ExprCase(binop(o, b, num(0)), tag="position." + via, via=via))
+            out.append(ExprCase(fn("low", b), tag="position." + via, via=via))
+            out.append(ExprCase(sym("k"), equs={"k": b}, tag="position." + via, via=via))
+        small = [0, 1, 2, 3, 5, 7, 12, 100]
+        for o in BINOPS:
+            for a, b_ in ((12, 5), (3, 100), (7, 2), (0, 1), (100, 7)):
+                out.append(ExprCase(binop(o, num(a), num(b_)), tag="position." + via, via=via))
+        for f in FUNCS:
+            out.append(ExprCase(fn(f, num(0x1234)), tag="position." + via, via=via))
+        for _ in range(150 if tier == "quick" else 3000):
+            out.append(ExprCase(random_tree(rnd, rnd.randrange(2, 5), small), tag="position." + via, via=via))
+        out.append(ExprCase(binop("+", sym("k"), num(1)), equs={"k": binop("*", num(3), num(4))}, tag="position." + via, via=via))
+    return out
+
+
 def random_tree(rnd, depth, g):
     if depth == 0 or rnd.random() < 0.25:
         return leaf(rnd.choice(g)) if rnd.random() < 0.5 else num(rnd.randrange(0, 20))
@@ -178,7 +211,7 @@ def check(prop, tier, seed):
     scratch = Scratch(prop)
     v = Verdict(prop, tier, seed, "model_checking")
     try:
-        cases = grid() + shapes(tier) + spelled(rnd, tier) + error_propagation() + chains()
+        cases = grid() + shapes(tier) + spelled(rnd, tier) + error_propagation() + chains() + other_positions(rnd, tier)
         g = grid_values()
         for _ in range(3000 if tier == "quick" else 60000):
             cases.append(ExprCase(random_tree(rnd, rnd.randrange(2, 7), g), tag="random"))
@@ -187,8 +220,17 @@ def check(prop, tier, seed):
         events = []
         for i, c in enumerate(cases):
             r = res[i]
-            ev = {"ast": c.ast, "toks": tokens(c.ast), "equs": c.equs, "labels": c.labels, "pc": c.pc, "res": r["r"], "b": []}
-            if r["r"] == "ok":
+            ev = {"ast": c.ast, "toks": tokens(c.ast), "equs": c.equs, "labels": c.labels, "pc": c.pc, "res": r["r"], "b": [], "via": c.via, "n": -1}
+            if r["r"] == "ok" and c.via == "byte":
+                ev["n"] = r["rf"]                       # bytes of RAM reserved
+                if r["code"] != "0000" or r["eeprom"]:
+                    ev["res"] = "shape"
+            elif r["r"] == "ok" and c.via == "org":
+                code = unhex(r["code"])
+                ev["n"] = len(code) // 2 - 1            # where the one instruction was put
+                if any(code) or r["eeprom"] or len(code) % 2:
+                    ev["res"] = "shape"
+            elif r["r"] == "ok":
                 code = unhex(r["code"])
                 ev["b"] = code[2 * c.nlabel:]
                 if len(ev["b"]) != 8 or any(code[:2 * c.nlabel]) or r["eeprom"]:
@@ -204,6 +246,11 @@ def check(prop, tier, seed):
         c = copy.deepcopy(plus[1]); c["toks"] = c["toks"] + [{"k": "rp", "s": ")"}]; can.append(c)
         if perr:
             c = copy.deepcopy(perr[0]); c["res"] = "ok"; c["b"] = [0] * 8; can.append(c)
+        for via in ("byte", "org"):       # a reservation / an origin one off, and a zero divisor that went through
+            pos = [e for e, c_ in zip(events, cases) if c_.via == via and c_.ast == binop("+", num(12), num(5))]
+            c = copy.deepcopy(pos[0]); c["res"] = "ok"; c["n"] = 18; can.append(c)
+            neg = [e for e, c_ in zip(events, cases) if c_.via == via and c_.ast == binop("/", num(1), num(0))]
+            c = copy.deepcopy(neg[0]); c["res"] = "ok"; c["n"] = 0; can.append(c)
         # the first three corruptions must be specified cases for the self-test to mean something: grid "+" cases are
         rejected, stats = validate_events(events + can, "Trace_Expr", scratch)
         ncan = sum(1 for i in range(len(events), len(events) + len(can)) if i in rejected)
@@ -228,7 +275,7 @@ def check(prop, tier, seed):
             "evaluations": len(events), "distinct_nontrivial": len({c.src for c in cases}),
             "rule": "grid: 18 binary operators x G x G, 3 unary and 8 functions x G with G = %d boundary values; all depth-2 operator shapes with "
                     "small leaves rendered with only the required parentheses; leaves in 6 radices / as .equ symbols / as labels in 3 letter cases; "
-                    "an undefined name / zero divisor / overflow on either side of every operator; names defined through chains of other names used repeatedly; names beginning like registers or functions; seeded random trees of depth 2-6; distinct = distinct sources" % len(g),
+                    "an undefined name / zero divisor / overflow on either side of every operator; names defined through chains of other names used repeatedly; names beginning like registers or functions; seeded random trees of depth 2-6; the same evaluation as the size of a .byte reservation (observed: RAM usage) and as an origin (observed: where the next instruction lands), with failing and small-valued trees; distinct = distinct sources" % len(g),
             "tags": _count(c.tag.split(".")[0] for c in cases),
             "observed_ok": len(oks), "observed_err": len(errs), "observed_other": len(events) - len(oks) - len(errs),
             "rejected_events": len([i for i in rejected if i < len(events)]),
